@@ -172,6 +172,43 @@ def run(ctx):
                        'container is inferred as homogeneous (it cannot be '
                        'encoded under that signature)'
                        % (slot, term_str(bad)[:60] if bad else ''))
+    # the element type of a homogeneous list is inferred from the element
+    # the others were compared with: `all elements are instances of
+    # type(pobj[0])` says nothing about the signature of pobj[-1] (a bool
+    # after an int, an Int16 after a plain int)
+    pobj0 = ('param', fi0.params()[0])
+    n_ref = 0
+    for p in paths:
+        v = p.value if p.outcome == 'return' else None
+        if not (kind(v) == 'binop' and v[1] == '+' and v[2] == C('a') and
+                kind(v[3]) == 'call' and v[3][1] == fi0.qualname and
+                len(v[3][3]) == 1):
+            continue
+        refs = set()
+        terms = [c for c, _ in p.cond]
+        for ev in p.trace:
+            if ev[0] == 'loop':
+                for bp in ev[4]:
+                    terms += [c for c, _ in bp.cond]
+        for t0 in terms:
+            for t in walk_term(t0):
+                if kind(t) == 'call' and t[2] == ('builtin', 'type') and \
+                        len(t[3]) == 1 and kind(t[3][0]) == 'sub' and \
+                        t[3][0][1] == pobj0:
+                    refs.add(t[3][0])
+        if not refs:
+            continue
+        n_ref += 1
+        ctx.ob('C19.D2', fi0.qualname, 'element-type-from-the-reference',
+               v[3][3][0] in refs,
+               'the elements of a list are compared with the type of %s, but '
+               'the element signature is inferred from %s: a list whose '
+               'other elements are instances of a SUBCLASS with another '
+               'D-Bus type (True after 2, Int16 after a plain int) gets a '
+               'signature its first element cannot be encoded under'
+               % (', '.join(sorted(term_str(r) for r in refs)),
+                  term_str(v[3][3][0])))
+    ctx.extra['list_reference_paths'] = n_ref
     n_all = sum(1 for n in ast.walk(fi0.node) if isinstance(n, ast.Call) and
                 isinstance(n.func, ast.Name) and n.func.id == 'all')
     if n_flags + n_all < 2:
